@@ -27,6 +27,7 @@ type AmtCase struct {
 	Fee        string    `json:"fee"`
 	Balance    string    `json:"balance"` // sender's hub balance before a send
 	DstChain   int       `json:"dst_chain"`
+	SameAddr   int       `json:"same_addr,omitempty"` // 1: the two EVM chains list the token under one contract address, 2: same address, other spelling
 	FeeDenom   int       `json:"fee_denom"`  // 1 = fee in another denom (stateless reject), 2 = unknown denom for both
 	HolderWho  int       `json:"holder_who"` // 0 none, 1 sender, 2 recipient, 3 both
 	HolderVal  [2]string `json:"holder_val"`
@@ -91,6 +92,7 @@ func genAmtCase(t *rapid.T) interface{} {
 		c.Balance = new(big.Int).Lsh(big.NewInt(1), 254).String()
 	}
 	c.DstChain = rapid.IntRange(0, 2).Draw(t, "dst")
+	c.SameAddr = rapid.SampledFrom([]int{0, 0, 0, 1, 2}).Draw(t, "sameaddr")
 	c.FeeDenom = rapid.SampledFrom([]int{0, 0, 0, 0, 0, 0, 1, 2}).Draw(t, "feedenom")
 	c.HolderWho = rapid.IntRange(0, 3).Draw(t, "holderwho")
 	for i := 0; i < 2; i++ {
@@ -138,6 +140,14 @@ func runAmtCase(ci interface{}, rec *pbt.Rec) *pbt.Failure {
 		src = "bsc"
 	}
 	ids := map[string]string{"ethereum": "0xA091Bb826756eA25114c512B916754b3fBCb4f63", "bsc": "0xf7413144696C5E5502307A8015c6359965CAA725", "minter": "7"}
+	if c.SameAddr > 0 {
+		// the token lives at the same contract address on both EVM chains (usual for tokens deployed with one key);
+		// the two list entries spell it differently now and then
+		ids["bsc"] = ids["ethereum"]
+		if c.SameAddr == 2 {
+			ids["bsc"] = strings.ToLower(ids["ethereum"])
+		}
+	}
 	cfg := sim.Config{
 		Tokens: []sim.TokenCfg{
 			{Id: 1, Denom: "hub", Chain: src, ExtId: ids[src], Decimals: c.SrcDec, Commission: "0.02"},
